@@ -8,7 +8,7 @@
    event = (kind, handler, stream, package, category, priority, msg)   (see tools/c2g/groups_C19.py)
      kind 0  handler call      kind 1/2  sc_package_lock/unlock (package)
      kind 3/4  call of sc_log / sc_logf (only inside macro expansions; expanded by [expand])
-     kind 5  return value of sc_package_register (in the package field)                       *)
+     kind 5  return value of sc_package_register / sc_package_id after sc_init (in the package field) *)
 From Coq Require Import ZArith List Bool.
 From ScV Require Import Base.CInt Gen.LogC19.
 Import ListNotations.
@@ -37,8 +37,9 @@ Record lstate := mkst {
 
 Definition fresh_pkg : pkg := mkpkg false 0 c19_const_lp_silent.
 
-Definition init_state : lstate :=
-  mkst c19_const_lp_threshold BUILTIN 0 (-1) 0 c19_const_lp_statistics (-1) [].
+(* dbg = the SC_ENABLE_DEBUG configuration (SC_LP_THRESHOLD is TRACE instead of INFO, SC_ASSERT live) *)
+Definition init_state (dbg : bool) : lstate :=
+  mkst (if dbg then c19_const_lp_threshold_dbg else c19_const_lp_threshold) BUILTIN 0 (-1) 0 c19_const_lp_statistics (-1) [].
 
 Definition tnth (t : list pkg) (i : Z) : pkg := nth (Z.to_nat i) t fresh_pkg.
 
@@ -80,13 +81,13 @@ Definition expand_own (st : lstate) (e : event) : list event :=
 
 (* sc_package_is_registered (id) logs "Invalid package id" through SC_LERRORF when id < 0
    (package sc_package_id, category NORMAL, priority ERROR), before it answers *)
-Definition isreg_side (st : lstate) (id : Z) : list event :=
-  if id <? 0 then flat_map (expand_own st) (w_c19_lerror (s_pkgid st) MSG_INVALID_ID) else [].
+Definition isreg_side (dbg : bool) (st : lstate) (id : Z) : list event :=
+  if id <? 0 then flat_map (expand_own st) ((if dbg then w_c19_lerror_dbg else w_c19_lerror) (s_pkgid st) MSG_INVALID_ID) else [].
 
 (* sc_log as called from outside: the registration query of line 874 is evaluated only when
    package != -1 *)
-Definition log_full (st : lstate) (package category priority msg : Z) : list event :=
-  (if package =? -1 then [] else isreg_side st package) ++ log_st st package category priority msg.
+Definition log_full (dbg : bool) (st : lstate) (package category priority msg : Z) : list event :=
+  (if package =? -1 then [] else isreg_side dbg st package) ++ log_st st package category priority msg.
 
 (* --- the package table ------------------------------------------------------------------- *)
 Fixpoint first_free (t : list pkg) (i : nat) : option nat :=
@@ -123,26 +124,29 @@ Inductive op :=
 | OTrace (file prio : Z)                    (* assignment to the public globals sc_trace_file, sc_trace_prio *)
 | OLog (package category priority msg : Z)  (* sc_log *)
 | OLogv (package category priority msg : Z) (* sc_logf / sc_logv *)
-| OGenLog (dbg : bool) (package category priority msg : Z)    (* SC_GEN_LOG macro (release / debug configuration) *)
-| OGenLogf (dbg : bool) (package category priority msg : Z).  (* SC_GEN_LOGF macro *)
+| OGenLog (package category priority msg : Z)    (* SC_GEN_LOG macro *)
+| OGenLogf (package category priority msg : Z).  (* SC_GEN_LOGF macro *)
 
-Definition expand_checked (st : lstate) (evs : list event) : option (list event) :=
+Definition expand_checked (dbg : bool) (st : lstate) (evs : list event) : option (list event) :=
   fold_right (fun e acc =>
     match acc with
     | None => None
     | Some r =>
       let '(k, h, s, p, c, q, m) := e in
-      if k =? 3 then Some (log_full st p c q m ++ r)
+      if k =? 3 then Some (log_full dbg st p c q m ++ r)
       else if k =? 4 then match logv_full st p c q m with Some l => Some (l ++ r) | None => None end
       else Some (e :: r)
     end) (Some []) evs.
 
 (* None: the library aborts the process (violated precondition) *)
-Definition step (st : lstate) (o : op) : option (lstate * list event) :=
+Definition step (dbg : bool) (st : lstate) (o : op) : option (lstate * list event) :=
   match o with
   | OSetDefaults stream handler thr =>
-      let '(dh, dt, ds) := sc_set_log_defaults (s_dthr st) BUILTIN stream handler thr in
-      Some (mkst dt dh ds (s_ident st) (s_tfile st) (s_tprio st) (s_pkgid st) (s_table st), [])
+      let '(dh, dt, ds, evs) := (if dbg then sc_set_log_defaults_dbg else sc_set_log_defaults) (s_dthr st) BUILTIN stream handler thr in
+      match evs with
+      | [] => Some (mkst dt dh ds (s_ident st) (s_tfile st) (s_tprio st) (s_pkgid st) (s_table st), [])
+      | _ => None      (* a live assertion failed *)
+      end
   | ORegister handler thr =>
       if valid_thr thr then
         let '(i, t) := register (s_table st) handler thr in
@@ -161,32 +165,33 @@ Definition step (st : lstate) (o : op) : option (lstate * list event) :=
         let '(i, t) := register (s_table st) handler thr in
         let id := Z.of_nat i in
         let st' := mkst (s_dthr st) (s_dhandler st) (s_stream st) ident (s_tfile st) (s_tprio st) id t in
-        let macro := if c19_const_lp_threshold =? c19_const_lp_trace then w_c19_global_essential_dbg else w_c19_global_essential in
-        let macrop := if c19_const_lp_threshold =? c19_const_lp_trace then w_c19_global_production_dbg else w_c19_global_production in
-        Some (st', flat_map (expand_own st') (macro id MSG_THIS_IS ++ flat_map (macrop id) MSG_INIT))
+        let macro := if dbg then w_c19_global_essential_dbg else w_c19_global_essential in
+        let macrop := if dbg then w_c19_global_production_dbg else w_c19_global_production in
+        Some (st', flat_map (expand_own st') (macro id MSG_THIS_IS ++ flat_map (macrop id) MSG_INIT)
+                   ++ [(5, 0, 0, id, 0, 0, 0)])     (* the value of sc_package_id afterwards *)
       else None
   | OFinalize =>
       Some (mkst (s_dthr st) (s_dhandler st) (s_stream st) (-1) 0 (s_tprio st) (-1) [], [])
   | OTrace file prio =>
       Some (mkst (s_dthr st) (s_dhandler st) (s_stream st) (s_ident st) file prio (s_pkgid st) (s_table st), [])
-  | OLog p c q m => Some (st, log_full st p c q m)
+  | OLog p c q m => Some (st, log_full dbg st p c q m)
   | OLogv p c q m => match logv_full st p c q m with Some l => Some (st, l) | None => None end
-  | OGenLog dbg p c q m =>
-      match expand_checked st ((if dbg then w_c19_gen_log_dbg else w_c19_gen_log) p c q m) with
+  | OGenLog p c q m =>
+      match expand_checked dbg st ((if dbg then w_c19_gen_log_dbg else w_c19_gen_log) p c q m) with
       | Some l => Some (st, l) | None => None end
-  | OGenLogf dbg p c q m =>
-      match expand_checked st ((if dbg then w_c19_gen_logf_dbg else w_c19_gen_logf) p c q m) with
+  | OGenLogf p c q m =>
+      match expand_checked dbg st ((if dbg then w_c19_gen_logf_dbg else w_c19_gen_logf) p c q m) with
       | Some l => Some (st, l) | None => None end
   end.
 
-Fixpoint run (st : lstate) (ops : list op) : option (lstate * list event) :=
+Fixpoint run (dbg : bool) (st : lstate) (ops : list op) : option (lstate * list event) :=
   match ops with
   | [] => Some (st, [])
   | o :: r =>
-    match step st o with
+    match step dbg st o with
     | None => None
     | Some (st1, e1) =>
-      match run st1 r with
+      match run dbg st1 r with
       | None => None
       | Some (st2, e2) => Some (st2, e1 ++ e2)
       end
